@@ -157,6 +157,24 @@ pub struct Mat {
     pub gz: bool,
     pub chunked: bool,
     pub delete_roller: bool, // use DeleteRoller (true) or FixedWindowRoller with count 0 (false) when Roller=delete/count=0
+    pub via_config: bool,    // build the appender through the configuration deserializers instead of the builders
+}
+
+/// harness trigger kind `scripted` for configuration-built appenders
+#[derive(serde::Deserialize)]
+struct ScriptedConfig {
+    pre: bool,
+}
+struct ScriptedDeserializer {
+    decisions: Arc<Mutex<VecDeque<bool>>>,
+    consulted: Arc<Mutex<usize>>,
+}
+impl log4rs::config::Deserialize for ScriptedDeserializer {
+    type Trait = dyn Trigger;
+    type Config = ScriptedConfig;
+    fn deserialize(&self, c: ScriptedConfig, _: &log4rs::config::Deserializers) -> anyhow::Result<Box<dyn Trigger>> {
+        Ok(Box::new(ScriptedTrigger { pre: c.pre, decisions: self.decisions.clone(), consulted: self.consulted.clone() }))
+    }
 }
 
 struct World {
@@ -252,7 +270,7 @@ pub fn replay_case(case: &Value, mat: Mat) -> Option<Value> {
     let consulted = Arc::new(Mutex::new(0usize));
     let bad_len = Arc::new(Mutex::new(vec![]));
     let policy_calls = Arc::new(Mutex::new(0usize));
-    let mut appender: Option<RollingFileAppender> = None;
+    let mut appender: Option<Box<dyn Append>> = None;
     let ops = case["ops"].as_array().unwrap();
     let fail = |step: usize, what: &str, detail: Value| Some(json!({"step": step, "op": ops[step], "what": what, "detail": detail}));
     for (si, op) in ops.iter().enumerate() {
@@ -282,6 +300,41 @@ pub fn replay_case(case: &Value, mat: Mat) -> Option<Value> {
                 } else {
                     Box::new(FixedWindowRoller::builder().base(base as u32).build(&world.pattern(), 0).unwrap())
                 };
+                if mat.via_config {
+                    // the same appender described as a configuration value: optional keys are left out where
+                    // the documented default is what the behaviour asks for
+                    let mut d = log4rs::config::Deserializers::default();
+                    d.insert("scripted", ScriptedDeserializer { decisions: decisions.clone(), consulted: consulted.clone() });
+                    let trig_cfg = match trig.as_str() {
+                        "size" => json!({"kind": "size", "limit": limit * mat.unit as u64}),
+                        "startup" => json!({"kind": "onstartup", "min_size": limit * mat.unit as u64}),
+                        t => json!({"kind": "scripted", "pre": t == "pre"}),
+                    };
+                    let roller_cfg = if window {
+                        let mut r = json!({"kind": "fixed_window", "pattern": world.pattern(), "count": count});
+                        if base != 0 {
+                            r["base"] = json!(base);
+                        }
+                        r
+                    } else if mat.delete_roller {
+                        json!({"kind": "delete"})
+                    } else {
+                        json!({"kind": "fixed_window", "pattern": world.pattern(), "count": 0})
+                    };
+                    let mut doc = json!({"path": world.act().to_string_lossy(), "encoder": {"pattern": "{m}"},
+                                         "policy": {"trigger": trig_cfg, "roller": roller_cfg}});
+                    if !append_mode {
+                        doc["append"] = json!(false);
+                    }
+                    drop(trigger);
+                    drop(roller);
+                    let value: serde_value::Value = serde_json::from_value(doc).unwrap();
+                    match catch(|| d.deserialize::<dyn Append>("rolling_file", value)) {
+                        Ok(Ok(a)) => appender = Some(a),
+                        Ok(Err(e)) => return fail(si, "appender build (from configuration) failed", json!(e.to_string())),
+                        Err(pn) => return fail(si, "appender build (from configuration) panicked", json!(pn)),
+                    }
+                } else {
                 let policy = CheckedPolicy { inner: CompoundPolicy::new(trigger, roller), bad: bad_len.clone(), calls: policy_calls.clone() };
                 let enc: Box<dyn Encode> = if mat.chunked {
                     Box::new(ChunkedEncoder)
@@ -289,9 +342,10 @@ pub fn replay_case(case: &Value, mat: Mat) -> Option<Value> {
                     Box::new(log4rs::encode::pattern::PatternEncoder::new("{m}"))
                 };
                 match catch(|| RollingFileAppender::builder().append(append_mode).encoder(enc).build(world.act(), Box::new(policy))) {
-                    Ok(Ok(a)) => appender = Some(a),
+                    Ok(Ok(a)) => appender = Some(Box::new(a)),
                     Ok(Err(e)) => return fail(si, "appender build failed", json!(e.to_string())),
                     Err(pn) => return fail(si, "appender build panicked", json!(pn)),
+                }
                 }
                 let got = world.observe();
                 let want = norm_expected(&op["disk"], base);
@@ -408,9 +462,9 @@ pub fn main(args: &[String]) {
     quiet_panics();
     let rows = read_ndjson(&args[0]);
     let mats = [
-        Mat { unit: 10, gz: false, chunked: false, delete_roller: true },
-        Mat { unit: 400, gz: false, chunked: true, delete_roller: false },
-        Mat { unit: 16, gz: true, chunked: false, delete_roller: true },
+        Mat { unit: 10, gz: false, chunked: false, delete_roller: true, via_config: false },
+        Mat { unit: 400, gz: false, chunked: true, delete_roller: false, via_config: false },
+        Mat { unit: 16, gz: true, chunked: false, delete_roller: true, via_config: true },
     ];
     let res = par_map(&rows, threads(), |i, c| {
         let mut out = vec![];
